@@ -353,7 +353,7 @@ def _val(rng, scale):
     return rng.uniform(-1, 1) * scale * 10
 
 
-EXP_ARG_LIMIT = 300.0  # exp(300) ~ 1e130: a product of two such factors still fits a double
+EXP_ARG_LIMIT = 60.0  # exp(60) ~ 1e26: products of up to ten such factors (derivatives, common denominators) still fit a double
 
 
 def max_exp_argument(defn, env):
